@@ -24,9 +24,10 @@ impl FileName {
             return None;
         }
         let stem = path.file_stem()?;
-        let mut parts = stem.to_str()?.splitn(2, '.');
-        let _name_prefix = parts.next()?;
+        // Name is `{prefix}.{id}`, and prefix itself can contain dots: id is the last part
+        let mut parts = stem.to_str()?.rsplitn(2, '.');
         let id: usize = parts.next()?.parse().ok()?;
+        let _name_prefix = parts.next()?;
         Some(Self {
             id,
             path: path.into()
